@@ -8,6 +8,7 @@ modes:  rename   every local gets a new name
         rettemp  `return e` -> `rv_ = e; return rv_`
         augexpand `x <<= 1` -> `x = x << 1`
         elsify   `if c: return x; rest` -> `if c: return x else: rest`
+        inlinetmp `x = e; use(x)` -> `use(e)` for single-use temporaries
         kwargify positional arguments of same-file callees -> keyword arguments
 usage: refactor_sweep.py <mode> [name filter ...]"""
 import ast, copy, json, os, sys, multiprocessing, textwrap
@@ -205,7 +206,62 @@ def t_kwargify(fn):
     return new if hit[0] else None
 
 
-MODES = {"augexpand": t_augexpand, "elsify": t_elsify, "kwargify": t_kwargify, "rename": t_rename, "ifswap": t_ifswap, "cmpflip": t_cmpflip, "rettemp": t_rettemp}
+def t_inlinetmp(fn):
+    """`x = e` immediately followed by the only statement that reads x (once) -> e inlined there"""
+    if has_nested(fn):
+        return None
+    hit = [0]
+    new = copy.deepcopy(fn)
+    loads, stores = {}, {}
+    for n in ast.walk(new):
+        if isinstance(n, ast.Name):
+            d = loads if isinstance(n.ctx, ast.Load) else stores
+            d[n.id] = d.get(n.id, 0) + 1
+
+    def simple(stmt):
+        return isinstance(stmt, (ast.Assign, ast.Expr, ast.Return, ast.AugAssign))
+
+    def fix(block):
+        out = []
+        i = 0
+        while i < len(block):
+            s_ = block[i]
+            if isinstance(s_, ast.Assign) and len(s_.targets) == 1 and isinstance(s_.targets[0], ast.Name) and i + 1 < len(block) and simple(block[i + 1]):
+                nm = s_.targets[0].id
+                nxt = block[i + 1]
+                uses = [x for x in ast.walk(nxt) if isinstance(x, ast.Name) and x.id == nm and isinstance(x.ctx, ast.Load)]
+                inside_scope = any(isinstance(x, (ast.Lambda, ast.ListComp, ast.GeneratorExp, ast.SetComp, ast.DictComp)) for x in ast.walk(nxt))
+                if loads.get(nm, 0) == 1 and stores.get(nm, 0) == 1 and len(uses) == 1 and not inside_scope and not isinstance(s_.value, (ast.Yield, ast.YieldFrom, ast.Await)):
+                    # the use must be the first thing evaluated that could have an effect: keep it simple - only when
+                    # the next statement evaluates nothing with effects before the use (names / constants / attributes)
+                    first_effect = None
+                    for x in ast.walk(nxt):
+                        if isinstance(x, (ast.Call, ast.Subscript)):
+                            first_effect = x
+                            break
+                    ok = first_effect is None or any(y is uses[0] for y in ast.walk(first_effect)) and not any(
+                        isinstance(y, (ast.Call, ast.Subscript)) and y is not first_effect and not any(z is uses[0] for z in ast.walk(y)) for y in ast.walk(first_effect))
+                    if ok:
+                        class R(ast.NodeTransformer):
+                            def visit_Name(self, n):
+                                return s_.value if n is uses[0] else n
+                        out.append(R().visit(nxt))
+                        hit[0] += 1
+                        i += 2
+                        continue
+            out.append(s_)
+            i += 1
+        return out
+
+    for n in ast.walk(new):
+        for fld in ("body", "orelse", "finalbody"):
+            blk = getattr(n, fld, None)
+            if isinstance(blk, list) and blk and isinstance(blk[0], ast.stmt):
+                setattr(n, fld, fix(blk))
+    return new if hit[0] else None
+
+
+MODES = {"inlinetmp": t_inlinetmp, "augexpand": t_augexpand, "elsify": t_elsify, "kwargify": t_kwargify, "rename": t_rename, "ifswap": t_ifswap, "cmpflip": t_cmpflip, "rettemp": t_rettemp}
 
 
 def splice(src, fn, new):
